@@ -5,6 +5,7 @@ import (
 	"go/constant"
 	"go/token"
 	"go/types"
+	"math"
 
 	"golang.org/x/tools/go/ssa"
 )
@@ -14,7 +15,7 @@ import (
 
 func init() {
 	register("C20",
-		"TMO-1: in Sent and Received every state change (field store, map update, delete, call of a function that mutates the TimeoutManager or a TimeoutBooster) is dominated by the false leg of the useStaticTimeout test; useStaticTimeout/resendTimeout are written only by the constructor, option closures and updateResendTimeoutUnsafe, which is called from Received only; the resend booster is built after all options ran, from the configured timeout. TMO-2: every value stored to resendTimeout / passed to resendBooster.Reset is proved >= minimumResendTimeout by interval analysis (guard + phi), default >= minimum as constants, boostCount only ever ++ or =0 and boostPercent only set from values guarded > 0. TMO-3: under the fact 'resent' Sent inserts no sample, deletes the sample of that sequence number / zeroes the SYN time; a fresh sample is recorded only under !resent; Received consumes (deletes/zeroes) the sample on the path that uses it and derives the new timeout from that sample only. TMO-4: Boost increments boostCount once per call and only past the frequency-limit test; the resend booster is constructed with the limit on. TMO-5: updateResendTimeoutUnsafe always resets the resend booster with the value it stored; Reset zeroes boostCount and replaces originalTimeout. TMO-6: the connection reports truthfully: sendPacket calls Sent(msg, isResend) with its own parameters after the successful transport send on every success path; the queue's retransmission callbacks (called from queue.resend only) report isResend = true and the first transmission in the send loop false; the receive loop reports every parsed packet before dispatching on its type; the handshakes report their SYN with the restart flag. Not decided: float32 rounding of the boost product; matching of a late duplicate ACK to the right sample.",
+		"TMO-1: in Sent and Received every state change (field store, map update, delete, call of a function that mutates the TimeoutManager or a TimeoutBooster) is dominated by the false leg of the useStaticTimeout test; useStaticTimeout/resendTimeout are written only by the constructor, option closures and updateResendTimeoutUnsafe, which is called from Received only; the resend booster is built after all options ran, from the configured timeout. TMO-2: every value stored to resendTimeout / passed to resendBooster.Reset is proved >= minimumResendTimeout by interval analysis (guard + phi), default >= minimum as constants, boostCount only ever ++ or =0 and boostPercent only set from values guarded > 0. TMO-3: under the fact 'resent' Sent inserts no sample, deletes the sample of that sequence number / zeroes the SYN time; a fresh sample is recorded only under !resent; Received consumes (deletes/zeroes) the sample on the path that uses it and derives the new timeout from that sample only. TMO-4: Boost increments boostCount once per call and only past the frequency-limit test; the resend booster is constructed with the limit on. TMO-5: updateResendTimeoutUnsafe always resets the resend booster with the value it stored; Reset zeroes boostCount and replaces originalTimeout. TMO-7: every getter/setter of the TimeoutManager reads/writes the field or booster its name says (and the connection's setters forward to the matching one). TMO-6: the connection reports truthfully: sendPacket calls Sent(msg, isResend) with its own parameters after the successful transport send on every success path; the queue's retransmission callbacks (called from queue.resend only) report isResend = true and the first transmission in the send loop false; the receive loop reports every parsed packet before dispatching on its type; the handshakes report their SYN with the restart flag. Not decided: float32 rounding of the boost product; matching of a late duplicate ACK to the right sample.",
 		[]string{"time.Time zero value / IsZero, map delete and lookup have their language semantics"},
 		runC20)
 }
@@ -388,6 +389,7 @@ func runC20(c *Checker) {
 	c.floor("TMO-4", 4)
 	c.floor("TMO-5", 3)
 	ruleTMO6(c)
+	ruleTMO7(c)
 }
 
 func returnBlock(fn *ssa.Function) *ssa.BasicBlock {
@@ -751,4 +753,100 @@ func ruleTMO6(c *Checker) {
 		}
 	}
 	c.floor("TMO-6", 8)
+}
+
+// ruleTMO7: each accessor of the TimeoutManager hands out / sets the quantity its name says:
+// a getter returns its own field (or MaxInt64 for the two keepalive times when they are 0) or
+// the current timeout of its own booster; a setter stores its argument into its own field.
+// Mixing them up (the handshake timeout read from the resend booster, the send timeout from
+// recvTimeout) keeps every caller type-correct and every test green while the wrong clock runs.
+func ruleTMO7(c *Checker) {
+	w := c.w
+	const T = "(*gbn.TimeoutManager)."
+	getField := map[string]string{"GetFinSendTimeout": "finSendTimeout", "GetSendTimeout": "sendTimeout", "GetRecvTimeout": "recvTimeout", "GetPingTime": "pingTime", "GetPongTime": "pongTime"}
+	getBooster := map[string]string{"GetResendTimeout": "resendBooster", "GetHandshakeTimeout": "handshakeBooster"}
+	setField := map[string]string{"SetSendTimeout": "sendTimeout", "SetRecvTimeout": "recvTimeout"}
+	retVals := func(fn *ssa.Function) []ssa.Value {
+		var out []ssa.Value
+		allInstrs(fn, func(in ssa.Instruction) {
+			if ret, ok := in.(*ssa.Return); ok && ret.Block().Comment != "recover" && len(ret.Results) == 1 {
+				out = append(out, expandValues(ret.Results[0])...)
+			}
+		})
+		return out
+	}
+	for g, fname := range getField {
+		fn, f := w.Func(T+g), w.Field("gbn.TimeoutManager."+fname)
+		if fn == nil || f == nil {
+			c.anchorFail("gbn.TimeoutManager." + g + "/" + fname)
+			continue
+		}
+		okk, n := true, 0
+		for _, v := range retVals(fn) {
+			n++
+			if isLoadOfField(v, f) {
+				continue
+			}
+			if cv, ok := v.(*ssa.Convert); ok {
+				if isLoadOfField(cv.X, f) {
+					continue
+				}
+			}
+			if k, ok := intConst(v); ok && k == math.MaxInt64 {
+				continue
+			}
+			okk = false
+		}
+		c.decide(okk && n > 0, "TMO-7", g+"|returns "+fname, fn.Pos(), "every returned value is the field "+fname+" (or 'never')", g+" does not return "+fname+": the wrong timeout is applied")
+	}
+	for g, bname := range getBooster {
+		fn, f := w.Func(T+g), w.Field("gbn.TimeoutManager."+bname)
+		if fn == nil || f == nil {
+			c.anchorFail("gbn.TimeoutManager." + g + "/" + bname)
+			continue
+		}
+		okk, n := true, 0
+		for _, v := range retVals(fn) {
+			n++
+			call, ok := v.(*ssa.Call)
+			if !ok || call.Common().StaticCallee() == nil || call.Common().StaticCallee().Name() != "GetCurrentTimeout" || !isLoadOfField(call.Common().Args[0], f) {
+				okk = false
+			}
+		}
+		c.decide(okk && n > 0, "TMO-7", g+"|current timeout of "+bname, fn.Pos(), "returns "+bname+".GetCurrentTimeout()", g+" does not return the current timeout of "+bname+": boosts and fresh samples act on the other timeout")
+	}
+	for sname, fname := range setField {
+		fn, f := w.Func(T+sname), w.Field("gbn.TimeoutManager."+fname)
+		if fn == nil || f == nil {
+			c.anchorFail("gbn.TimeoutManager." + sname + "/" + fname)
+			continue
+		}
+		okk := false
+		for _, st := range w.Stores(f) {
+			if st.Parent() == fn && st.Val == ssa.Value(fn.Params[1]) {
+				okk = true
+			}
+		}
+		nOther := 0
+		allInstrs(fn, func(in ssa.Instruction) {
+			if st, ok := in.(*ssa.Store); ok {
+				if fa, ok := st.Addr.(*ssa.FieldAddr); ok && structFieldOf(fa) != f {
+					nOther++
+				}
+			}
+		})
+		c.decide(okk && nOther == 0, "TMO-7", sname+"|stores into "+fname, fn.Pos(), fname+" = argument, nothing else", sname+" does not store its argument into "+fname+" (and only there)")
+	}
+	// the public setters of the connection forward to the matching manager setter
+	for _, pr := range [][2]string{{"SetSendTimeout", "SetSendTimeout"}, {"SetRecvTimeout", "SetRecvTimeout"}} {
+		fn := w.Func("(*gbn.GoBackNConn)." + pr[0])
+		tgt := w.Func(T + pr[1])
+		if fn == nil || tgt == nil {
+			continue
+		}
+		cs := findCalls(fn, func(ci ssa.CallInstruction) bool { return ci.Common().StaticCallee() == tgt })
+		c.decide(len(cs) == 1 && cs[0].Common().Args[1] == ssa.Value(fn.Params[1]), "TMO-7", "GoBackNConn."+pr[0]+"|forwards to the manager", fn.Pos(), "calls TimeoutManager."+pr[1]+" with its argument",
+			"GoBackNConn."+pr[0]+" does not forward its argument to TimeoutManager."+pr[1])
+	}
+	c.floor("TMO-7", 11)
 }
